@@ -161,10 +161,20 @@ def part_b_driver(cfg, T, mode):
                        for x, y in letters]
         states = []
         alpha = cfg['alpha']
+        import copy as _copy
+        fork_at = T - 2
+        original = ex
         for t in range(T):
             x, y = letters[run.choose(len(letters), 'obs', None, 0)]
-            ex.explain_one(dict(x), y)
-            where = f"{type(ex).__name__}[{sc.cfg_desc(cfg)}] ({mode} pass) after call {t + 1}"
+            if t == fork_at + 1:
+                # a deep copy taken one step earlier is checked while only the ORIGINAL moves on (and vice versa below)
+                fork = _copy.deepcopy(original)
+                original.explain_one(dict(x), y)
+                ex = fork
+            else:
+                ex.explain_one(dict(x), y)
+            where = f"{type(ex).__name__}[{sc.cfg_desc(cfg)}] ({mode} pass) after call {t + 1}" + \
+                (" (deep copy of the explainer taken before the original was fed one more observation)" if ex is not original else "")
             var = ex.variances
             if not var:
                 continue
